@@ -1,7 +1,138 @@
-import Labella.Model.CalSpec
+import Labella.Model.Scale
+import Labella.Proofs.ScaleLemmas
+import Mathlib.Algebra.Order.Field.Rat
+import Mathlib.Tactic.Ring
+import Mathlib.Tactic.Linarith
+import Mathlib.Tactic.FieldSimp
+/-! # C12 — the linear scale is the affine map through its domain and range end points
+
+Stated over ℚ (exact arithmetic stands for IEEE doubles: "up to floating-point error" in the property text is
+the part that lives in the trusted base and is sampled by the correspondence check). -/
 namespace Labella.C12
 open Labella Labella.Scale
 
-theorem placeholder_interp (a b : Rat) : interp a b 0 = a * (1 - 0) + b * 0 := rfl
+/-- the two domain end points are mapped exactly to the two range end points (clamped or not) -/
+theorem endpoints (c : Bool) (a b r0 r1 : ℚ) (h : a ≠ b) :
+    apply c a b r0 r1 a = r0 ∧ apply c a b r0 r1 b = r1 := by
+  have hba : b - a ≠ 0 := sub_ne_zero.mpr (Ne.symm h)
+  have ha : uninterp a b a = 0 := by rw [uninterp_of_ne a b a h]; simp
+  have hb : uninterp a b b = 1 := by rw [uninterp_of_ne a b b h]; exact div_self hba
+  have c0 : clamp01 0 = 0 := clamp01_of_mem 0 le_rfl zero_le_one
+  have c1 : clamp01 1 = 1 := clamp01_of_mem 1 zero_le_one le_rfl
+  cases c <;> simp [apply, ha, hb, c0, c1, interp_zero, interp_one]
+
+/-- affine in between and beyond -/
+theorem affine (a b r0 r1 x : ℚ) (h : a ≠ b) :
+    apply false a b r0 r1 x = r0 + (r1 - r0) * ((x - a) / (b - a)) := by
+  exact apply_false_eq a b r0 r1 x h
+
+/-- strictly monotone, increasing iff domain and range are oriented alike -/
+theorem strict_mono (a b r0 r1 x y : ℚ) (h : a ≠ b) (hr : r0 ≠ r1) (hxy : x < y) :
+    if (a < b ↔ r0 < r1) then apply false a b r0 r1 x < apply false a b r0 r1 y
+    else apply false a b r0 r1 y < apply false a b r0 r1 x := by
+  rw [apply_false_eq a b r0 r1 x h, apply_false_eq a b r0 r1 y h]
+  have key : ∀ {s d : ℚ}, 0 < s → 0 < d → s * ((x - a) / d) < s * ((y - a) / d) := by
+    intro s d hs hd
+    exact mul_lt_mul_of_pos_left (div_lt_div_of_pos_right (by linarith) hd) hs
+  have flip : ∀ z : ℚ, (z - a) / (b - a) = -((z - a) / (a - b)) := by
+    intro z; rw [← neg_sub a b, div_neg]
+  rcases lt_or_gt_of_ne h with hab | hab <;> rcases lt_or_gt_of_ne hr with hr' | hr'
+  · rw [if_pos (by simp [hab, hr'])]
+    have := key (sub_pos.mpr hr') (sub_pos.mpr hab); linarith
+  · rw [if_neg (by simp [hab, not_lt.mpr hr'.le])]
+    have := key (s := r0 - r1) (sub_pos.mpr hr') (sub_pos.mpr hab); linarith
+  · rw [if_neg (by simp [hr', not_lt.mpr hab.le])]
+    have := key (s := r1 - r0) (d := a - b) (sub_pos.mpr hr') (sub_pos.mpr hab)
+    rw [flip x, flip y]; linarith
+  · rw [if_pos (by simp [not_lt.mpr hab.le, not_lt.mpr hr'.le])]
+    have := key (s := r0 - r1) (d := a - b) (sub_pos.mpr hr') (sub_pos.mpr hab)
+    rw [flip x, flip y]; linarith
+
+/-- `invert` is the inverse: `invert(scale(x)) = x` … -/
+theorem invert_apply (a b r0 r1 x : ℚ) (h : a ≠ b) (hr : r0 ≠ r1) :
+    invert false a b r0 r1 (apply false a b r0 r1 x) = x := by
+  have hba : b - a ≠ 0 := sub_ne_zero.mpr (Ne.symm h)
+  have hr10 : r1 - r0 ≠ 0 := sub_ne_zero.mpr (Ne.symm hr)
+  unfold invert
+  rw [apply_false_eq r0 r1 a b _ hr, apply_false_eq a b r0 r1 x h]
+  field_simp
+  ring
+
+/-- … and `scale(invert(y)) = y` -/
+theorem apply_invert (a b r0 r1 y : ℚ) (h : a ≠ b) (hr : r0 ≠ r1) :
+    apply false a b r0 r1 (invert false a b r0 r1 y) = y := by
+  have hba : b - a ≠ 0 := sub_ne_zero.mpr (Ne.symm h)
+  have hr10 : r1 - r0 ≠ 0 := sub_ne_zero.mpr (Ne.symm hr)
+  unfold invert
+  rw [apply_false_eq a b r0 r1 _ h, apply_false_eq r0 r1 a b y hr]
+  field_simp
+  ring
+
+/-- with clamping, outputs never leave the range … -/
+theorem clamp_in_range (a b r0 r1 x : ℚ) :
+    ratMin r0 r1 ≤ apply true a b r0 r1 x ∧ apply true a b r0 r1 x ≤ ratMax r0 r1 := by
+  simp only [apply, if_true]
+  exact interp_mem r0 r1 _ (clamp01_nonneg _) (clamp01_le_one _)
+
+/-- … and equal the unclamped value inside the domain -/
+theorem clamp_eq_inside (a b r0 r1 x : ℚ) (h : a ≠ b) (hx : ratMin a b ≤ x ∧ x ≤ ratMax a b) :
+    apply true a b r0 r1 x = apply false a b r0 r1 x := by
+  obtain ⟨h0, h1⟩ := uninterp_mem a b x h hx
+  simp only [apply, if_true, Bool.false_eq_true, if_false, clamp01_of_mem _ h0 h1]
+
+/-- a degenerate domain maps everything to the start of the range -/
+theorem degenerate (c : Bool) (a r0 r1 x : ℚ) : apply c a a r0 r1 x = r0 := by
+  have c0 : clamp01 0 = 0 := clamp01_of_mem 0 le_rfl zero_le_one
+  cases c <;> simp [apply, uninterp_self, c0, interp_zero]
+
+/-! ### histories of domain / range / clamp / nice / copy calls on a scale and its copies -/
+
+/-- no two live objects share a list cell, and every cell reference is valid -/
+def Separated (h : Heap) : Prop :=
+  (∀ o ∈ h.objs, o.domCell < h.cells.length ∧ o.rngCell < h.cells.length ∧ o.domCell ≠ o.rngCell) ∧
+  (h.objs.map (fun o => [o.domCell, o.rngCell])).flatten.Nodup
+
+/-- bridge to the identical definition used by the helper lemmas in `Labella/Proofs/ScaleLemmas.lean` -/
+theorem separated_iff_sep (h : Heap) : Separated h ↔ Sep h := Iff.rfl
+
+/-- after ANY sequence of calls every scale maps with exactly the end points it reports -/
+theorem cache_coherent (ops : List Op) : coherentB (run false ops) = true := by
+  exact (HInv.run ops).coherent
+
+/-- objects stay separated (this is what the repaired `copy()` guarantees) -/
+theorem separated (ops : List Op) : Separated (run false ops) := by
+  exact (separated_iff_sep _).mpr (HInv.run ops).separated
+
+/-- the target object of an operation -/
+def Op.target : Op → Nat
+  | .domain i _ _ => i | .range i _ _ => i | .clamp i _ => i | .nice i _ => i | .inplace i _ _ => i | .copy i => i
+
+/-- a copy and its original (indeed any two distinct objects) never influence each other: an operation on
+object `i` leaves what every other existing object reports unchanged, and existing objects are never removed -/
+theorem others_unaffected (ops : List Op) (op : Op) (j : Nat) (hj : j < (run false ops).objs.length)
+    (hne : j ≠ Op.target op) :
+    ∃ o o', (run false ops).objs[j]? = some o ∧ (stepOp false (run false ops) op).objs[j]? = some o' ∧
+      reported (stepOp false (run false ops) op) o' = reported (run false ops) o := by
+  have hI := HInv.run ops
+  have htgt : Op.target op = Op.tgt op := by cases op <;> rfl
+  obtain ⟨o, ho⟩ : ∃ o, (run false ops).objs[j]? = some o := ⟨_, List.getElem?_eq_getElem hj⟩
+  have hf := (step_spec (run false ops) op hI).2 j o (by rw [← htgt]; exact hne) ho
+  exact ⟨o, o, ho, hf.1, hf.2⟩
+
+/-- a fresh copy reports what its original reports -/
+theorem copy_reports_same (ops : List Op) (i : Nat) (o : SObj) (hi : (run false ops).objs[i]? = some o) :
+    ∃ o', (stepOp false (run false ops) (.copy i)).objs.getLast? = some o' ∧
+      reported (stepOp false (run false ops) (.copy i)) o' = reported (run false ops) o := by
+  exact copy_last (run false ops) i o hi
+
+/-- the pre-repair behaviour (copy shares the two lists) violates coherence: after `c = s.copy(); c.<nice>` the
+original reports a domain it does not map -/
+theorem legacy_copy_counterexample :
+    coherentB (run true [.domain 0 (3/10) (97/10), .copy 0, .inplace 1 0 10]) = false := by
+  decide +kernel
+
+-- non-vacuity
+example : apply false 2 4 10 20 3 = 15 ∧ invert false 2 4 10 20 15 = 3 := by
+  constructor <;> norm_num [apply, invert, interp, uninterp]
 
 end Labella.C12
